@@ -1,9 +1,11 @@
 #!/bin/bash
 # confirm_seed.sh <cNN> <demo command (run inside the worktree)> -- re-runs tests + demo with and without the change in /tmp/seed-<cNN>
+# (no git stash: the stash is shared between all worktrees of a repository)
 c=$1; shift
 cd /tmp/seed-$c || exit 1
+git diff > /tmp/confirm-$c.patch
 echo "== tests with change"; cargo nextest run --workspace --no-fail-fast --test-threads 8 --offline 2>&1 | grep -E "Summary|FAIL \[" | head -5
 echo "== demo with change"; bash -c "$*" 2>&1 | grep -v "index created" | tail -2; echo "exit=${PIPESTATUS[0]}"
-git stash -q
+git apply -R /tmp/confirm-$c.patch
 echo "== demo without change"; bash -c "$*" 2>&1 | grep -v "index created" | tail -2; echo "exit=${PIPESTATUS[0]}"
-git stash pop -q
+git apply /tmp/confirm-$c.patch
